@@ -605,6 +605,24 @@ func TestKnown_C07_LeftoverHeartbeatLoopDeposesNextTerm(t *testing.T) {
 
 var kvSlow func(k *natsmock.MockKeyValue)
 
+// nopanic.type_assert@logWithContext: the correlation id is taken from the caller's context with an unchecked type
+// assertion; StopWithContext logs with the caller's context.
+func TestKnown_C09_StopWithContextPanicsOnForeignCorrelationID(t *testing.T) {
+	e, _ := kElection(t, kCfg())
+	kLeader(t, e)
+	type key = string
+	ctx := context.WithValue(context.Background(), key("correlation_id"), 42) //nolint
+	var rec interface{}
+	func() {
+		defer func() { rec = recover() }()
+		_ = e.StopWithContext(ctx, StopOptions{})
+	}()
+	if rec != nil {
+		_ = e.Stop()
+		t.Fatalf("VIOLATION-REPRODUCED: StopWithContext panics when the caller's context carries a non-string correlation_id: %v", rec)
+	}
+}
+
 // C13.one_acquisition_round_at_a_time: a live record with an empty value and a watch that ends at once. Every
 // generation of the watch loop starts two acquisition rounds (the empty initial value, the closed channel), both
 // fail against the live key, both settle as follower and each starts a new watch loop: the number of goroutines and
